@@ -126,9 +126,11 @@ func (s *S) index1() {
 		}
 	}()
 	idx := &s2.CellIndex{}
+	var added []cl // in the order Add was called
 	if g.n(2) == 0 {
 		for _, p := range pairs {
 			idx.Add(s2.CellID(p.id), p.label)
+			added = append(added, p)
 		}
 	} else {
 		// AddCellUnion per label (same multiset of pairs)
@@ -142,10 +144,15 @@ func (s *S) index1() {
 		}
 		for _, l := range labels {
 			idx.AddCellUnion(toCU(byLabel[l]), l)
+			for _, id := range byLabel[l] {
+				added = append(added, cl{id, l})
+			}
 		}
 	}
 	method = "Build"
 	idx.Build()
+	method = "correspondence"
+	s.tIndex(idx, added)
 	all := sortCL(pairs)
 
 	// ---- (a) the plain range iterator enumerates consecutive leaf ranges from the first leaf
@@ -537,10 +544,15 @@ func (s *S) findCase(fixed [][]uint64) {
 	}
 	c.Eval(keyOf("find", raw...), len(want) > 0)
 	var got []s2intersect.Intersection
+	given := make([][]uint64, n) // Find sorts the callers' slices in place: keep what was passed
+	for i := range in {
+		given[i] = fromCU(in[i])
+	}
 	if p, msg := try(func() { got = s2intersect.Find(in) }); p {
 		c.Violate("s2intersect.Find.panic", "Find panicked: "+msg, rep)
 		return
 	}
+	s.tFind(given, got)
 	seen := map[uint]bool{}
 	for _, x := range got {
 		var mask uint
